@@ -9,6 +9,8 @@ returns a set of classes
     READONLY   a read-only view: pandas `.to_numpy()` / `.values` without `copy=True`
                (pandas >= 3 Copy-on-Write hands out non-writable views)
     ITER       an element produced by iterating over a call result (ownership not decided)
+    CLOSURE:<n> a free variable of the scope (captured from the enclosing function or a module global)
+    ATTR:<a> / OBJ:<o>   state of an object (`self.x`, or something a method of `o` returned from its state)
     UNKNOWN    anything else
 
 View-preserving operations (`reshape`, `.T`, `asarray`, slices, `ravel`, `squeeze`, `.real`, ...) pass the
@@ -64,6 +66,7 @@ class Ownership:
         self._dfs: dict[int, DataFlow] = {}
         self._nested: Optional[dict[str, list[FuncInfo]]] = None
         self._methods: Optional[dict[str, list[FuncInfo]]] = None
+        self._rets: dict[int, list] = {}
 
     def _index(self) -> None:
         if self._nested is not None:
@@ -75,6 +78,12 @@ class Ownership:
                 self._nested.setdefault(f.name, []).append(f)
             elif f.cls is not None and not f.is_property:
                 self._methods.setdefault(f.name, []).append(f)
+
+    def _returns(self, target: FuncInfo) -> list:
+        k = id(target.node)
+        if k not in self._rets:
+            self._rets[k] = [r for r in walk_no_nested(target.node) if isinstance(r, ast.Return) and r.value is not None]
+        return self._rets[k]
 
     def candidates(self, f: FuncInfo, e: ast.Call) -> tuple[list[FuncInfo], bool]:
         """Package functions a call may reach -> (candidates, skip_self)."""
@@ -108,28 +117,28 @@ class Ownership:
     def classify(self, f: FuncInfo, node: int, name: str, _depth: int = 0, _seen=None) -> set[str]:
         df = self.df_of(f)
         seen = _seen if _seen is not None else set()
-        if (id(f.node), node, name) in seen:
-            return set()
-        seen.add((id(f.node), node, name))
-        out: set[str] = set()
-        defs = [d for d in df.reaching(node, name) if d.strong]
-        if not defs:
-            return {UNKNOWN}
-        for d in defs:
-            if d.kind == "param":
-                out.add(f"PARAM:{name}")
-            elif d.kind in ("assign", "walrus") and d.value is not None:
-                st = df.cfg.nodes[d.node].ast
-                val = d.value
-                # tuple unpacking from a call: each target inherits the class of the call
-                out |= self.classify_expr(f, d.node, val, _depth, seen)
-            elif d.kind == "for":
-                out.add(ITER)
-            elif d.kind == "with":
-                out.add(UNKNOWN)
-            else:
-                out.add(UNKNOWN)
-        return out
+        key = (id(f.node), node, name)
+        if key in seen:
+            return set()  # recursion: contributes nothing new
+        seen.add(key)
+        try:
+            out: set[str] = set()
+            defs = [d for d in df.reaching(node, name) if d.strong]
+            if not defs:
+                # no definition in this scope: a closure variable of a nested function or a module global
+                return {f"CLOSURE:{name}"}
+            for d in defs:
+                if d.kind == "param":
+                    out.add(f"PARAM:{name}")
+                elif d.kind in ("assign", "walrus") and d.value is not None:
+                    out |= self.classify_expr(f, d.node, d.value, _depth, seen)
+                elif d.kind == "for":
+                    out.add(ITER)
+                else:
+                    out.add(UNKNOWN)
+            return out
+        finally:
+            seen.discard(key)
 
     # ------------------------------------------------------------------ expressions
     def classify_expr(self, f: FuncInfo, node: int, e: ast.AST, _depth: int = 0, _seen=None) -> set[str]:
@@ -188,7 +197,7 @@ class Ownership:
                 res: set[str] = set()
                 for target in targets:
                     tdf = self.df_of(target)
-                    rets = [r for r in walk_no_nested(target.node) if isinstance(r, ast.Return) and r.value is not None]
+                    rets = self._returns(target)
                     if not rets:
                         res.add(FRESH)
                         continue
